@@ -97,3 +97,6 @@ for (tname, label) in (('x1', 'T-on-axis-1'), ('x2', 'T-on-axis-2')):
                        "all(result[0][i][j][k] == self.reactions[i].get_delta_GoRT(%s) / self.norm_factors[i]"
                        " * const.R('eV/K') * %s for i in range(2) for j in range(2) for k in range(2))" % (call, Tjk))],
              cross_check=False)
+
+from contracts import helpers
+helpers.install(P, 'kwargs', 'reaction_parser')
